@@ -1129,7 +1129,14 @@ def rule_r9(chk, p, t, rid="C04.R9", only=None):
                 mats.append(c[0])
             bad = list(slot_bad)
             if unparse(mats[0]) != unparse(mats[1]):
-                bad.append("position and velocity are rotated by different matrices")
+                # two spellings of one matrix (the triad built twice by an inlined helper): compared with every local
+                # replaced by its definition
+                try:
+                    same_m = canon(inline_locals(fn, mats[0])) == canon(inline_locals(fn, mats[1]))
+                except Exception:
+                    same_m = False
+                if not same_m:
+                    bad.append("position and velocity are rotated by different matrices")
             m = mats[0]
             is_t = False
             while True:
